@@ -29,6 +29,7 @@ def string_is_geometry(sequence: pd.Series, state: dict) -> bool:
         UnicodeEncodeError,
         TypeError,
         UnicodeDecodeError,
+        NotImplementedError,
     ):
         result = False
     finally:
